@@ -908,4 +908,335 @@ theorem fold_assign (hs : List Entry) : ∀ (j : Jar) (out : List (Str × Str)),
         simp
       · exact b8 x hx
 
+
+theorem hits_sub (allowIp : Bool) (j : Jar) (host rpath : Str) (sec : Bool) :
+    ∀ e ∈ hits allowIp j host rpath sec, e ∈ j.cookies := by
+  intro e he
+  unfold hits at he
+  simp only [atKey] at he
+  split at he
+  · exact (List.mem_filter.mp he).1
+  · rcases List.mem_append.mp he with he | he
+    · exact (List.mem_filter.mp he).1
+    · simp only [List.mem_flatMap, List.mem_filter] at he
+      obtain ⟨_, _, ⟨he, _⟩, _⟩ := he
+      exact he
+
+theorem inv_filter (allowIp : Bool) (now : Int) (j : Jar) (host rpath : Str) (sec : Bool) (h : Inv j) :
+    Inv (filter allowIp now j host rpath sec).1 := by
+  unfold filter
+  exact (fold_assign _ _ [] (inv_doExpiration j now h) (hits_sub _ _ _ _ _)).2.2.2.2.1
+
+theorem inv_clearDomain (now : Int) (j : Jar) (d : Str) (h : Inv j) : Inv (clearDomain now j d) := by
+  unfold clearDomain
+  exact inv_deleteCookies _ _ h
+
+theorem inv_load (allowIp : Bool) (now : Int) (data : List Saved) : Inv (load allowIp now data) := by
+  unfold load
+  apply inv_doExpiration
+  suffices H : ∀ (j : Jar), Inv j → Inv (data.foldl (fun (j : Jar) (s : Saved) =>
+      let host : Option Str := if s.dom.isEmpty then none else some s.dom
+      let rpath : Str := if s.dom.isEmpty then [] else [47]
+      let j := update allowIp now host rpath j [s.raw]
+      match s.exp with
+      | some w => expireCookie j w (s.dom, s.pkey, s.c.name)
+      | none => j) j) from H {} inv_empty
+  induction data with
+  | nil => intro j h; exact h
+  | cons s t ih =>
+    intro j h
+    simp only [List.foldl_cons]
+    apply ih
+    split
+    · exact inv_expireCookie _ _ _ (inv_update _ _ _ _ _ _ h)
+    · exact inv_update _ _ _ _ _ _ h
+
+theorem inv_step (allowIp : Bool) (w : World) (op : Op) (h : Inv w.jar) : Inv (step allowIp w op).1.jar := by
+  cases op with
+  | set host rpath cs => exact inv_update _ _ _ _ _ _ h
+  | tick dt => exact h
+  | query host rpath sec => exact inv_filter _ _ _ _ _ _ h
+  | clear => exact inv_empty
+  | clearDomain d => exact inv_clearDomain _ _ _ h
+  | saveLoad => exact inv_load _ _ _
+
+/-- **the invariants hold after every history** -/
+theorem inv_run (allowIp : Bool) (ops : List Op) : ∀ (w : World), Inv w.jar → Inv (run allowIp w ops).jar := by
+  induction ops with
+  | nil => intro w h; exact h
+  | cons op t ih => intro w h; exact ih _ (inv_step allowIp w op h)
+
+
+/-! ## no shared cookies when every response has a host -/
+
+def NoShared (j : Jar) : Prop := ∀ e ∈ j.cookies, e.dom ≠ []
+
+/-- the operations the property quantifies over: every Set-Cookie comes with a response URL that has a host -/
+def Hostful : Op → Prop
+  | .set (some h) _ _ => h ≠ []
+  | .set none _ _ => False
+  | _ => True
+
+theorem expireCookie_cookies (j : Jar) (w : Int) (k : Key) : (expireCookie j w k).cookies = j.cookies := by
+  unfold expireCookie; split <;> rfl
+
+theorem expireCookie_hostOnly (j : Jar) (w : Int) (k : Key) : (expireCookie j w k).hostOnly = j.hostOnly := by
+  unfold expireCookie; split <;> rfl
+
+theorem expStage_cookies (now : Int) (j : Jar) (r : Raw) (k : Key) : (expStage now j r k).cookies = j.cookies := by
+  unfold expStage
+  split
+  · exact expireCookie_cookies _ _ _
+  · rfl
+  · split
+    · split
+      · rfl
+      · exact expireCookie_cookies _ _ _
+    · rfl
+
+theorem expStage_hostOnly (now : Int) (j : Jar) (r : Raw) (k : Key) : (expStage now j r k).hostOnly = j.hostOnly := by
+  unfold expStage
+  split
+  · exact expireCookie_hostOnly _ _ _
+  · rfl
+  · split
+    · split
+      · rfl
+      · exact expireCookie_hostOnly _ _ _
+    · rfl
+
+theorem normDomain_cookies (j : Jar) (host : Option Str) (name d : Str) :
+    (normDomain j host name d).1.cookies = j.cookies := by
+  rcases normDomain_fst j host name d with h1 | ⟨_, _, h1⟩ <;> rw [h1]
+
+theorem isDomainMatch_nil (h : Str) (hh : h ≠ []) : isDomainMatch [] h = false := by
+  unfold isDomainMatch
+  have : (h == []) = false := by simpa using hh
+  simp [this]
+
+theorem noShared_acceptOne (now : Int) (h rpath : Str) (j : Jar) (r : Raw) (hh : h ≠ [])
+    (hj : NoShared j) : NoShared (acceptOne now (some h) rpath j r) := by
+  rw [acceptOne_eq]
+  split
+  · intro e he; rw [normDomain_cookies] at he; exact hj e he
+  · next hrej =>
+    intro e he
+    simp only [storeEntry] at he
+    rcases mem_putEntry_sub _ e _ he with rfl | he
+    · intro hd
+      apply hrej
+      simp only [entryOf] at hd
+      rw [hd]
+      simp [rejected, isDomainMatch_nil h hh, hh]
+    · rw [expStage_cookies, normDomain_cookies] at he
+      exact hj e he
+
+theorem noShared_doExpiration (j : Jar) (now : Int) (hj : NoShared j) : NoShared (doExpiration j now) :=
+  fun e he => hj e ((doExpiration_cookies j now e).mp he).1
+
+theorem noShared_update (allowIp : Bool) (now : Int) (h rpath : Str) (j : Jar) (rs : List Raw) (hh : h ≠ [])
+    (hj : NoShared j) : NoShared (update allowIp now (some h) rpath j rs) := by
+  unfold update
+  split
+  · exact hj
+  · apply noShared_doExpiration
+    revert j
+    induction rs with
+    | nil => intro j hj; exact hj
+    | cons r t ih => intro j hj; exact ih _ (noShared_acceptOne now h rpath j r hh hj)
+
+theorem noShared_filter (allowIp : Bool) (now : Int) (j : Jar) (host rpath : Str) (sec : Bool) (hI : Inv j)
+    (hj : NoShared j) : NoShared (filter allowIp now j host rpath sec).1 := by
+  unfold filter
+  intro e he
+  rw [(fold_assign _ _ [] (inv_doExpiration j now hI) (hits_sub _ _ _ _ _)).1] at he
+  exact noShared_doExpiration j now hj e he
+
+theorem noShared_load (allowIp : Bool) (now : Int) (data : List Saved) (hd : ∀ s ∈ data, s.dom ≠ []) :
+    NoShared (load allowIp now data) := by
+  unfold load
+  apply noShared_doExpiration
+  suffices H : ∀ (j : Jar), NoShared j → NoShared (data.foldl (fun (j : Jar) (s : Saved) =>
+      let host : Option Str := if s.dom.isEmpty then none else some s.dom
+      let rpath : Str := if s.dom.isEmpty then [] else [47]
+      let j := update allowIp now host rpath j [s.raw]
+      match s.exp with
+      | some w => expireCookie j w (s.dom, s.pkey, s.c.name)
+      | none => j) j) from H {} (by intro e he; simp at he)
+  induction data with
+  | nil => intro j h; exact h
+  | cons s t ih =>
+    intro j h
+    simp only [List.foldl_cons]
+    apply ih (fun x hx => hd x (List.mem_cons_of_mem _ hx))
+    have hs := hd s List.mem_cons_self
+    have he : s.dom.isEmpty = false := by simpa using hs
+    simp only [he, Bool.false_eq_true, if_false]
+    split
+    · intro e hx; rw [expireCookie_cookies] at hx; exact noShared_update _ _ _ _ _ _ hs h e hx
+    · exact noShared_update _ _ _ _ _ _ hs h
+
+theorem noShared_step (allowIp : Bool) (w : World) (op : Op) (hop : Hostful op) (hI : Inv w.jar)
+    (h : NoShared w.jar) : NoShared (step allowIp w op).1.jar := by
+  cases op with
+  | set host rpath cs =>
+    cases host with
+    | none => exact absurd hop (by simp [Hostful])
+    | some hst => exact noShared_update _ _ _ _ _ _ hop h
+  | tick dt => exact h
+  | query host rpath sec => exact noShared_filter _ _ _ _ _ _ hI h
+  | clear => intro e he; simp [step, clearAll] at he
+  | clearDomain d =>
+    intro e he
+    simp only [step, clearDomain] at he
+    exact h e ((deleteCookies_cookies _ _ e).mp he).1
+  | saveLoad =>
+    apply noShared_load
+    intro s hs
+    simp only [save, List.mem_map] at hs
+    obtain ⟨e, he, rfl⟩ := hs
+    exact h e he
+
+theorem noShared_run (allowIp : Bool) (ops : List Op) : ∀ (w : World), (∀ op ∈ ops, Hostful op) → Inv w.jar →
+    NoShared w.jar → NoShared (run allowIp w ops).jar := by
+  induction ops with
+  | nil => intro w _ _ h; exact h
+  | cons op t ih =>
+    intro w hops hI h
+    exact ih _ (fun o ho => hops o (List.mem_cons_of_mem _ ho)) (inv_step allowIp w op hI)
+      (noShared_step allowIp w op (hops op List.mem_cons_self) hI h)
+
+
+/-! ## selection = RFC 6265 §5.4 on the recorded attributes -/
+
+/-- the RFC 6265 cookie an entry stands for, with the host-only flag and deadline the jar has recorded -/
+def absE (j : Jar) (e : Entry) : Ref.RCookie :=
+  ⟨e.c.name, e.c.value, e.c.domain, e.c.path, j.hostOnly.contains (e.c.domain, e.c.name), e.c.secure,
+    aget e.key j.expirations⟩
+
+def abs (j : Jar) : List Ref.RCookie := j.cookies.map (absE j)
+
+theorem mem_product (ds ps : List Str) (d p : Str) : (d, p) ∈ product ds ps ↔ d ∈ ds ∧ p ∈ ps := by
+  simp [product, List.mem_flatMap]
+
+theorem atKey_shared_nil (j : Jar) (h : NoShared j) : atKey j [] [] = [] := by
+  unfold atKey
+  apply List.filter_eq_nil_iff.mpr
+  intro e he
+  have := h e he
+  simp [this]
+
+theorem mem_hits (allowIp : Bool) (j : Jar) (host rpath : Str) (sec : Bool) (e : Entry) (hns : NoShared j) :
+    e ∈ hits allowIp j host rpath sec ↔
+      e ∈ j.cookies ∧ ¬(isIp host = true ∧ allowIp = false) ∧
+      e.dom ∈ (if isIp host then [host] else domainCands host) ∧ e.pkey ∈ pathCands rpath ∧
+      passes j host rpath.length sec e = true := by
+  unfold hits
+  simp only [atKey_shared_nil j hns, List.nil_append]
+  by_cases hb : (isIp host && !allowIp) = true
+  · simp only [hb, if_true, List.not_mem_nil, false_iff]
+    have : isIp host = true ∧ allowIp = false := by simpa using hb
+    intro h; exact h.2.1 this
+  · simp only [hb, Bool.false_eq_true, if_false, List.mem_flatMap, List.mem_filter, atKey, Bool.and_eq_true,
+      beq_iff_eq]
+    have hb' : ¬(isIp host = true ∧ allowIp = false) := by simpa using hb
+    constructor
+    · rintro ⟨⟨d, p⟩, hdp, ⟨he, hd, hp⟩, hpass⟩
+      rw [mem_product] at hdp
+      simp only at hd hp
+      subst hd; subst hp
+      exact ⟨he, hb', hdp.1, hdp.2, hpass⟩
+    · rintro ⟨he, _, hd, hp, hpass⟩
+      exact ⟨(e.dom, e.pkey), (mem_product _ _ _ _).mpr ⟨hd, hp⟩, ⟨he, rfl, rfl⟩, hpass⟩
+
+theorem hostOK_iff (host dom : Str) (ho : Bool) :
+    (dom ∈ (if isIp host then [host] else domainCands host) ∧ (!(ho && dom != host)) = true) ↔
+      (if ho then host == dom else Ref.domainMatch host dom) = true := by
+  cases hip : isIp host <;> cases ho
+  · -- host name, domain cookie
+    simp only [Bool.false_eq_true, if_false, mem_domainCands, Bool.false_and, Bool.not_false, and_true,
+      Ref.domainMatch, hip, Bool.true_and, Bool.or_eq_true, beq_iff_eq, List.isSuffixOf_iff_suffix]
+    constructor
+    · rintro (h | h)
+      · exact Or.inl h.symm
+      · exact Or.inr h
+    · rintro (h | h)
+      · exact Or.inl h.symm
+      · exact Or.inr h
+  · -- host name, host-only cookie
+    simp only [Bool.false_eq_true, if_false, mem_domainCands, Bool.true_and, Bool.not_eq_true', if_true,
+      beq_iff_eq, bne_eq_false_iff_eq]
+    constructor
+    · rintro ⟨_, h⟩; exact h.symm
+    · intro h; exact ⟨Or.inl h.symm, h.symm⟩
+  · -- IP address, domain cookie
+    simp only [if_true, List.mem_singleton, Bool.false_and, Bool.not_false, and_true, Bool.false_eq_true,
+      if_false, Ref.domainMatch, hip, Bool.not_true, Bool.false_and, Bool.or_false, beq_iff_eq]
+    exact eq_comm
+  · -- IP address, host-only cookie
+    simp only [if_true, List.mem_singleton, Bool.true_and, Bool.not_eq_true', bne_eq_false_iff_eq, beq_iff_eq]
+    constructor
+    · rintro ⟨h, _⟩; exact h.symm
+    · intro h; exact ⟨h.symm, h.symm⟩
+
+
+theorem not_expired_absE (now : Int) (j : Jar) (e : Entry)
+    (hNE : ∀ w, aget e.key j.expirations = some w → now < w) : Ref.expired now (absE j e) = false := by
+  unfold Ref.expired absE
+  simp only
+  cases h : aget e.key j.expirations with
+  | none => rfl
+  | some w =>
+    have := hNE w h
+    simp only [decide_eq_false_iff_not]
+    omega
+
+/-- the scope test an entry must pass, in RFC 6265 terms but with the *stripped-key* path rule of the code -/
+theorem mem_hits_iff (allowIp : Bool) (now : Int) (j : Jar) (host rpath : Str) (sec : Bool) (e : Entry)
+    (hI : Inv j) (hns : NoShared j) (he : e ∈ j.cookies) :
+    e ∈ hits allowIp j host rpath sec ↔
+      ¬(isIp host = true ∧ allowIp = false) ∧
+      (if j.hostOnly.contains (e.c.domain, e.c.name) then host == e.c.domain else Ref.domainMatch host e.c.domain) = true ∧
+      (rstripSlash e.c.path ∈ pathCands rpath ∧ ¬ e.c.path.length > rpath.length) ∧
+      (e.c.secure = true → sec = true) := by
+  rw [mem_hits allowIp j host rpath sec e hns]
+  obtain ⟨hf1, hf2⟩ := hI.fields e he
+  rw [← hf1, hf2]
+  have h1 := hostOK_iff host e.c.domain (j.hostOnly.contains (e.c.domain, e.c.name))
+  unfold passes
+  simp only [Bool.and_eq_true]
+  constructor
+  · rintro ⟨_, hip, hd, hp, ⟨hho, hlen⟩, hsec⟩
+    refine ⟨hip, h1.mp ⟨hd, hho⟩, ⟨hp, by simpa using hlen⟩, ?_⟩
+    intro hs
+    cases sec <;> simp [hs] at hsec ⊢
+  · rintro ⟨hip, hho, ⟨hp, hlen⟩, hsec⟩
+    obtain ⟨hd, hho'⟩ := h1.mpr hho
+    refine ⟨he, hip, hd, hp, ⟨hho', by simpa using hlen⟩, ?_⟩
+    cases hs : e.c.secure
+    · simp
+    · simp [hsec hs]
+
+theorem hit_iff_attachable (allowIp : Bool) (now : Int) (j : Jar) (host rpath : Str) (sec : Bool) (e : Entry)
+    (hI : Inv j) (hns : NoShared j) (he : e ∈ j.cookies) (hT : Tame e.c.path)
+    (hNE : ∀ w, aget e.key j.expirations = some w → now < w) :
+    e ∈ hits allowIp j host rpath sec ↔
+      (¬(isIp host = true ∧ allowIp = false) ∧ Ref.attachable now host rpath sec (absE j e) = true) := by
+  rw [mem_hits_iff allowIp now j host rpath sec e hI hns he, pathOK_iff _ _ hT]
+  unfold Ref.attachable
+  rw [not_expired_absE now j e hNE]
+  simp only [absE, Bool.and_eq_true, Bool.not_false, and_true, Bool.or_eq_true, Bool.not_eq_true']
+  constructor
+  · rintro ⟨h1, h2, h3, h4⟩
+    refine ⟨h1, ⟨h2, h3⟩, ?_⟩
+    cases hs : e.c.secure
+    · exact Or.inl rfl
+    · exact Or.inr (h4 hs)
+  · rintro ⟨h1, ⟨h2, h3⟩, h4⟩
+    refine ⟨h1, h2, h3, ?_⟩
+    intro hs
+    rcases h4 with h4 | h4
+    · rw [hs] at h4; cases h4
+    · exact h4
+
 end Aio.C16
